@@ -468,3 +468,59 @@ func ZZ_C10_H4() {
 	zz.Assert("pool-invariant-at-the-end", zzPoolInvariant(c, d, 2))
 	zz.Assert("pending-gauge-zero", c.PendingRequests() == 0)
 }
+
+// ZZ_C10_H5: "a call given a request timeout returns no later than that timeout plus slack",
+// across a transparently retried attempt. A warm-up call leaves an idle pooled connection; the
+// call under test (budget 2 s, idempotent GET) writes its request slowly (1.3 s) on that
+// connection, the peer has closed it, the request is re-sent on a fresh connection whose writes
+// and reads are slow too. The budget covers the whole call: it may overrun by at most the one
+// operation in flight (transport deadlines are not modelled), so the call returns within
+// budget + 1.5 s on the modelled clock (and on the wall clock of the native replay).
+func ZZ_C10_H5() {
+	d := &zzDialer{}
+	d.script = func() (int, byte) { return -1, 0 }
+	c := NewHostClient(&ClientOptions{Dialer: d, MaxConns: 2}).(*HostClient)
+	c.Addr = "h:80"
+	var req0, req1 protocol.Request
+	var resp0, resp1 protocol.Response
+	req0.SetRequestURI("http://h/0")
+	d.next = zzPeerBytes(zzOK, '0')
+	err0 := c.Do(&zzCtx{}, &req0, &resp0)
+	zz.Assert("warm-up-call-succeeds", err0 == nil && len(d.conns) == 1)
+	if err0 != nil || len(d.conns) != 1 {
+		return
+	}
+	slowReads := zz.Choose("slowReads", 2) == 1
+	retried := zz.Choose("peerClosedIdleConnection", 2) == 1
+	first := d.conns[0]
+	first.OnWrite = func() { zz.SlowFor(1300) }
+	if !retried {
+		first.In = append(first.In, zzPeerBytes(zzOK, '1')...)
+		if slowReads {
+			first.OnRead = func() { zz.SlowFor(1300) }
+		}
+	}
+	d.next = zzPeerBytes(zzOK, '1')
+	d.onDial = func(nc *zz.NetConn) {
+		nc.OnWrite = func() { zz.SlowFor(1300) }
+		if slowReads {
+			nc.OnRead = func() { zz.SlowFor(1300) }
+		}
+	}
+	req1.SetRequestURI("http://h/1")
+	const budget = 2 * time.Second
+	req1.SetOptions(config.WithRequestTimeout(budget))
+	t0 := time.Now()
+	err1 := c.Do(&zzCtx{}, &req1, &resp1)
+	elapsed := time.Since(t0)
+	zz.Cover("reached-assert", true)
+	zz.Cover("retried-on-a-fresh-connection", len(d.conns) == 2)
+	zz.Cover("timed-out", err1 != nil)
+	zz.Assert("returns-within-budget-plus-one-operation", elapsed <= budget+1500*time.Millisecond)
+	if err1 == nil {
+		b := resp1.Body()
+		zz.Assert("response-is-its-own", len(b) == 2 && b[1] == '1')
+	}
+	zz.Assert("pool-invariant", zzPoolInvariant(c, d, 2))
+	zz.Assert("pending-gauge-zero", c.PendingRequests() == 0)
+}
